@@ -941,6 +941,42 @@ async fn sign_websocket_upgrade_sigv4(request_builder: http::request::Builder, s
 }
 
 #[cfg(feature = "testing")]
+/// Verification accessors.  Compiled only with the `verif` cargo feature; add-only.
+#[cfg(feature = "verif")]
+#[allow(missing_docs)]
+pub mod verif {
+    use super::*;
+
+    /// The connect options the builder hands to the client it builds
+    pub fn final_connect_options(builder: &AwsClientBuilder) -> ConnectOptions {
+        let user_connect_options =
+            if let Some(options) = &builder.connect_options {
+                options.clone()
+            } else {
+                ConnectOptions::builder().build()
+            };
+
+        builder.build_final_connect_options(user_connect_options)
+    }
+
+    /// The client options the builder hands to the client it builds
+    pub fn final_client_options(builder: &AwsClientBuilder) -> MqttClientOptions {
+        let client_options =
+            if let Some(options) = &builder.client_options {
+                options.clone()
+            } else {
+                MqttClientOptions::builder().build()
+            };
+
+        apply_aws_defaults(client_options)
+    }
+
+    /// CONNECT username and password computed for custom authentication
+    pub fn custom_auth_parts(options: &AwsCustomAuthOptions) -> (String, Option<Vec<u8>>) {
+        (options.username.clone(), options.password.clone())
+    }
+}
+
 #[cfg(test)]
 mod testing {
     use gneiss_mqtt::error::GneissResult;
